@@ -1161,10 +1161,17 @@ def model_guard_scopes(body):
     return out
 
 
+CURRENT_PATHS = []   # source files of the item being processed (where R16 looks for helper definitions)
+
+
 def process_fn(fn, spec, handle, stats, canary):
     name = fn["name"]
     sig = drop_attrs_and_docs(fn["sig"])
     body = fn["body"]
+    if INLINE_HELPERS and CURRENT_PATHS:
+        # R16 works on the RAW body, so that every later rule (R4, R9, declared rewrites, probes) sees the
+        # inlined text exactly as it would see the same expression written in place
+        body = inline_helpers(body, [n_ for n_ in INLINE_HELPERS if n_ != name], list(CURRENT_PATHS), stats)
     stats["verbatim_lines"] += body.count("\n") + 1
     for (fname, old_, new_) in spec.sigrewrites:
         if fname != name:
@@ -1464,6 +1471,8 @@ def header_generics(header):
 
 
 def extract_impl(path, header_lit, macro, args, handle, spec, stats, canary):
+    del CURRENT_PATHS[:]
+    CURRENT_PATHS.append(path)
     text = get_text(path, macro, args)
     m = find_unique(text, header_lit, "%s :: %s" % (path, header_lit))
     # header continues to '{'
@@ -1684,6 +1693,8 @@ def extract_impl(path, header_lit, macro, args, handle, spec, stats, canary):
 
 
 def extract_free_fn(path, name, macro, args, clauses, loops, rewrites, stats, canary, trusted=False, byref=False, ret="r", sigrewrites=()):
+    del CURRENT_PATHS[:]
+    CURRENT_PATHS.append(path)
     text = get_text(path, macro, args)
     ms = [m for m in re.finditer(r"(?:pub(?:\([^)]*\))?\s+)?fn\s+%s\b" % re.escape(name), mask_trivia(text))]
     if len(ms) != 1:
@@ -2153,13 +2164,6 @@ def generate_(template_path, variant, canary=False):
             continue
         raise ExtractError("%s:%d: unknown directive %s" % (template_path, i + 1, d))
     unit_text = "\n".join(out)
-    if INLINE_HELPERS:
-        paths_ = []
-        for s_ in stats["sources"]:
-            pm_ = re.match(r"\w+\s+(\S+?\.rs)", s_)
-            if pm_ and pm_.group(1) not in paths_:
-                paths_.append(pm_.group(1))
-        unit_text = inline_helpers(unit_text, INLINE_HELPERS, paths_, stats)
     # R15: file-level `const NAME: T = literal;` items of the source files that the extracted text refers to
     # are copied along (a body that starts using a named constant still types)
     consts = []
